@@ -521,7 +521,7 @@ def oracle(ctx, volume=1):
                  "(exact float sums) on the boundaries and keeps 1e-9 away from them otherwise",
                  "generate_empi_dist_sequence_from_prob_dist draws an independent multinomial sample per sample size (not cumulative); cumulative consistency "
                  "is claimed and checked for calc_empi_dist_sequence only",
-                 "calc_empi_dist_sequence silently returns [] when the first sample size is <= 0 (mirrored by the model, excluded by hypothesis in empi_counts)"]
+                 "calc_empi_dist_sequence silently returns [] when the first sample size is <= 0 (mirrored by the model: theorem empi_first_size_nonpositive; excluded by hypothesis in empi_counts / empi_ok_iff)"]
     g = ctx.npgen(2)
     vecs = prob_vectors(ctx, g, (120 if ctx.quick else 1000) * volume)
     # (a) inversion: range, non-zero probability, the interval [c_{i-1}, c_i)
